@@ -22,7 +22,9 @@ RULE = (
     "traced coordinates; number of branches, parent relation, branch lengths, types and type groups (a partition of all "
     "compartments), compartment radii at the compartment centres, independence of total length and connectivity from ncomp; with "
     "max_branch_len a validity predicate (pieces are contiguous point runs that chain end-to-start, cover the section, sum to "
-    "its length). Most cases stop at swc_to_jaxley (1 ms), a fraction goes through read_swc. Non-trivial: a fork away from the "
+    "its length). Most cases stop at swc_to_jaxley (1 ms), a fraction goes through read_swc. A second engine, atheris (libFuzzer), "
+    "mutates the byte string from which the same strategy decodes its spec, with coverage feedback from the reader's functions and "
+    "the same oracle inside the target (4 x 1500 executions quick, 16 x 40000 thorough). Non-trivial: a fork away from the "
     "root and >=2 neurite types; distinct = hash(points, options)."
 )
 ASSUMPTIONS = [
@@ -32,11 +34,25 @@ ASSUMPTIONS = [
     "with max_branch_len a piece may exceed the limit only if the section has too few traced points to be cut once more into pieces of >=2 points, "
     "or was cut into more than 10 pieces (documented warning); a zero-length piece counts 1 um like a zero-length section",
 ]
-TECHNIQUE = "property-based testing (Hypothesis) with a reference section model; metamorphic over ncomp; validity predicate for max_branch_len"
+TECHNIQUE = "property-based testing (Hypothesis) with a reference section model, plus coverage-guided fuzzing (atheris/libFuzzer) through the same strategy and oracle; metamorphic over ncomp"
 LEVEL_TEXT = (
     "Generated SWC trees (and the repository's files) are read and compared with an independent section model: branches, parents, "
     "lengths, radii at compartment centres, type groups, and invariance under ncomp. Search, not proof."
 )
+
+
+def extra_engine_cmds(tier, seed):
+    """Second engine: coverage-guided fuzzing of the reader with atheris (oracle inside the target)."""
+    import importlib.util
+    import sys
+
+    deps = os.path.join(core.VERIF_DIR, ".deps")
+    if deps not in sys.path:
+        sys.path.append(deps)
+    if importlib.util.find_spec("atheris") is None:
+        return []
+    n, runs, secs = (4, 1500, 60) if tier == "quick" else (16, 40000, 900)
+    return [["/venv/bin/python", "-m", "vp.fuzz.swc_atheris", "--runs", str(runs), "--seed", str(1 + (seed * 131 + i) % 100000), "--max-seconds", str(secs)] for i in range(n)]
 
 
 def budget(tier):
